@@ -148,6 +148,21 @@ def classify_exc(ex: BaseException) -> str:
     return "Other:" + name
 
 
+KNOWN_VALUE_ERRORS = {"ValueError:len", "ValueError:nonpositive", "ValueError:nonfinite", "ValueError:digits"}
+
+
+def same_outcome(a, b):
+    """equality of canonical outcomes; the WORDING of a ValueError message is not part of any contract — its class is: a ValueError whose
+    message is none of the recognised wordings matches any expected ValueError"""
+    if a == b:
+        return True
+    if isinstance(a, dict) and isinstance(b, dict) and isinstance(a.get("e"), str) and isinstance(b.get("e"), str):
+        ea, eb = a["e"], b["e"]
+        if ea.startswith("ValueError:") and eb.startswith("ValueError:") and (ea not in KNOWN_VALUE_ERRORS or eb not in KNOWN_VALUE_ERRORS):
+            return True
+    return False
+
+
 def outcome_of(fn):
     """Run fn(); canonical outcome {"g": val} | {"e": tag}"""
     try:
